@@ -24,7 +24,9 @@ including the kind and line of every error and warning):
 Termination of the model functions themselves is Lean's (structural recursion / fuel); the theorems say that the fuel
 is never what ends a run.
 
-Partial: "never panic / abort" of the real code (slice indexing, `unwrap`, stack depth) and the header check rest on
+* the header check: `C02_header_check_accepts_what_loading_accepts` (every buffer that `load_buffer` accepts, strict or lenient,
+  is accepted by `check_buffer`), `C02_header_check_total`.
+Partial: "never panic / abort" of the real code (slice indexing, `unwrap`, stack depth) rests on
 the run: exhaustive short strings over the XML token alphabet, token strings in valid contexts, mutations and all
 truncations of a valid document, random bytes, with `catch_unwind`, a watchdog, and a child process for pathological
 nesting (known finding: stack overflow on extreme nesting depth).  `String::from_utf8_lossy` on invalid UTF-8 in string
@@ -33,6 +35,7 @@ values / comments is outside the parser model (the model answers `unsupported`).
 import AutosarVerif.Lemmas.Lexer
 import AutosarVerif.Lemmas.ParserTotal
 import AutosarVerif.Lemmas.ParserLines
+import AutosarVerif.Lemmas.CheckHeader
 
 namespace AV.C02
 open AV.Lex
@@ -62,5 +65,14 @@ example : (lex [60, 97, 62, 10, 60, 62]).2.1 = some (2, .invalidElement) := by d
 example : (lex [60, 63, 62]).2.1 = some (1, .invalidProcessingInstruction) := by decide
 -- "<a/>" yields BeginElement and the deferred EndElement, then end of file
 example : (lex [60, 97, 47, 62]).1 = [(1, .beginElement [97] []), (1, .endElement [97]), (1, .eof)] := by decide
+
+/-! ### the header check (added in the third session; `check_arxml_header` is in the model: `PM.checkHeader` / `PM.checkBuffer`, the driver
+answers `chk` requests with it and the answers are compared with `check_buffer` on every input of the run) -/
+
+/-- **the header check accepts every buffer that loading accepts**, strict or lenient -/
+theorem C02_header_check_accepts_what_loading_accepts : type_of% @AV.PM.checkBuffer_of_load := @AV.PM.checkBuffer_of_load
+/-- the header check never runs out of its step budget: a rejection is a genuine tokenizer / parser error -/
+theorem C02_header_check_total : type_of% @AV.PM.checkBuffer_false_reason := @AV.PM.checkBuffer_false_reason
+theorem C02_header_check_budget_irrelevant : type_of% @AV.PM.checkBuffer_eq_any_fuel := @AV.PM.checkBuffer_eq_any_fuel
 
 end AV.C02
